@@ -63,6 +63,15 @@ def gen_ops(rng, writes, m, tier):
     keys = BX.related(m.keys()) + [BX.gen_key(rng)]
     if len(keys) > (6 if tier == "quick" else 16):
         keys = rng.sample(keys, 6 if tier == "quick" else 16)
+    # prefixes whose bits occur INSIDE a stored key's bit path without being a prefix of it (the key's bits shifted by 1..7)
+    for k in rng.sample(sorted(m), min(2, len(m))):
+        bits = "".join(format(b, "08b") for b in k)
+        for sft in rng.sample(range(1, 8), 2):
+            chunk = bits[sft:sft + 8 * rng.choice([1, 1, 2])]
+            if len(chunk) >= 8:
+                q = int(chunk[: len(chunk) // 8 * 8], 2).to_bytes(len(chunk) // 8, "big")
+                if q not in keys:
+                    keys.append(q)
     ops = list(writes)
     meta = [None] * len(ops)
     other = None
